@@ -309,6 +309,29 @@ def _deferred(ctx, rep):
                 rep.ob("R-LINK", "retry callback: the outcome goes to the future of the job whose delegate completed", ok, "job selected by %s, outcome set on %s" % (fmt(found[0].d[0]) if found else None, fmt(r)), where_of(cb), trace_of(p))
 
 
+def copy_complete_rule(ctx, rep, rule):
+    """shared with the combinators (C14, C15) whose failure rows end in this helper"""
+    prog = ctx.prog
+    ce = prog.fn("common:copy_exception")
+    FUT = ("param", ce.params[0])
+    # every way out of copy_exception has stored the exception (a setter call that did not raise), unless the future
+    # turned out to be decided already (InvalidStateError caught): a future that has no set_exception_info (every
+    # stdlib Future) must reach the plain set_exception
+    from .c18 import may_raise as _may_raise
+    ps2, it2 = ctx.paths(ce, None, depth=0, may_raise=_may_raise)
+    nout = 0
+    for p in ps2:
+        if p.status != "return":
+            continue
+        nout += 1
+        sets = [e for e in p.calls() if q.call_name(e) in ("set_exception_info", "set_exception") and q.recv(e) == FUT]
+        raised = set(r.d.get("from") if isinstance(r.d, dict) else None for r in p.evs("raise"))
+        done = [e for e in sets if not any(r.seq == e.seq + 1 for r in p.evs("raise"))]
+        lost = any("InvalidStateError" in (c.d.get("names") or []) or "InvalidStateError" in str(c.d.get("exc")) for c in p.evs("catch"))
+        rep.ob(rule, "copy_exception: every exit has stored the exception or found the future already decided", bool(done) or lost, "a path returns without a completed set_exception_info()/set_exception() on the future (setter calls on the path: %s; the one for futures without set_exception_info -- every stdlib Future -- is missing): the failure is dropped and the future stays pending" % [q.call_name(e) for e in sets], where_of(ce), trace_of(p))
+    rep.require(nout >= 2, "copy_exception: returning paths not found")
+
+
 def _copy_helpers(ctx, rep):
     prog = ctx.prog
     ce = prog.fn("common:copy_exception")
@@ -330,6 +353,7 @@ def _copy_helpers(ctx, rep):
             else:
                 rep.ob("R-EXC-ID", "copy_exception: the given exception object is stored as is", a0 == EXC, "%s(%s)" % (q.call_name(e), fmt(a0) if a0 else None), where_of(ce, e.node), trace_of(p, e.seq))
     rep.require(n >= 4, "copy_exception: setter calls not found")
+    copy_complete_rule(ctx, rep, "R-EXC-ID")
     cfe = prog.fn("common:copy_future_exception")
     ps, it = ctx.paths(cfe, None, depth=0)
     F1, F2 = ("param", cfe.params[0]), ("param", cfe.params[1])
